@@ -1,10 +1,11 @@
 \* spec -> impl, exhaustive: every history over 3 NIS values x 2 dimensions, trimmed per
-\* detector (standard 2 calls, sliding w+2 capped at 5, fading 4), 3 significance levels.
+\* detector (standard 2 calls, sliding w+2 capped at 4, fading 4), 3 significance levels
+\* (windows of 4 and more, and longer histories, are covered by Detectors_sim_quick.cfg).
 \* Every finished history is emitted (HIST) and replayed into the real classes.
 SPECIFICATION Spec
 CONSTANTS Kinds = {"standard", "sliding", "fading"} Windows = {1, 2, 3, 4} NAlpha = 3 Bank = TRUE
           NisVals = {0, 3, 8} NisDen = 1 Dims = {1, 3}
-          MaxLen = 5 FadeLen = 4 Trim = TRUE KeepHist = TRUE
+          MaxLen = 4 FadeLen = 4 Trim = TRUE KeepHist = TRUE
 CONSTANT Deltas <- DeltasQuick
 INVARIANT TypeOK
 INVARIANT DetectIffReaches
